@@ -213,8 +213,9 @@ type vMState struct {
 	stopped bool
 	step    int
 	nLease  int
-	valid   []int // submissions (ids) valid at check, in check order
+	valid   []int // submissions (ids) valid when answered, in that order
 	viol    []vMViolation
+	stepAnn []vStepAnn // announcements seen in the current step
 }
 
 type vMViolation struct{ Rule, Trigger, Detail string }
@@ -235,6 +236,11 @@ func vMTermWait() time.Duration {
 }
 
 type vMarker struct{ n int }
+
+type vStepAnn struct {
+	a vAnnouncement
+	e event.ManifestReceived
+}
 
 func vNewMState(k *vManifestKit) *vMState {
 	g := vs.NewGates()
@@ -356,7 +362,7 @@ func (s *vMState) collect() {
 			case event.ManifestReceived:
 				a := vAnnouncement{Step: s.step, Man: s.k.which(e.Manifest)}
 				s.run.Ann = append(s.run.Ann, a)
-				s.judgeAnnouncement(a, e)
+				s.stepAnn = append(s.stepAnn, vStepAnn{a, e})
 			}
 		case <-dl:
 			s.note("observer did not see the marker")
@@ -406,20 +412,21 @@ func (s *vMState) validMen() []int {
 
 // check marks the submissions that the manager can judge now (chain data
 // present) in the model.
-func (s *vMState) modelCheck() {
-	if !s.fetched {
-		return
-	}
+func (s *vMState) modelCheck() {}
+
+// modelReplies judges the submissions that received their first reply in
+// this step.  A manifest is valid when it is answered - whenever the manager
+// chose to look at it - iff it hashes to the version in force at that moment
+// and matches the on-chain groups; whatever was validated then (accepted, or
+// refused only for want of a lease) may be announced from now on.
+func (s *vMState) modelReplies() {
 	for _, sub := range s.run.Subs {
-		if sub.Checked || len(sub.Replies) > 0 {
+		if sub.Checked || len(sub.Replies) == 0 {
 			continue
 		}
 		sub.Checked = true
 		sub.CheckStep = s.step
-		sub.ValidAtCheck = sub.Man == s.version && sub.Man != 3
-		if sub.Man == 3 && s.version == 3 {
-			sub.ValidAtCheck = false // right hash, resources differ from the on-chain groups
-		}
+		sub.ValidAtCheck = s.fetched && sub.Man == s.version && sub.Man != 3
 		if sub.ValidAtCheck {
 			s.valid = append(s.valid, sub.ID)
 		}
@@ -529,8 +536,13 @@ func (s *vMState) apply(ev vMEvent) bool {
 			s.note("manager did not terminate after stop()")
 		}
 	}
+	s.stepAnn = s.stepAnn[:0]
 	s.collect()
 	s.drainReplies()
+	s.modelReplies()
+	for _, x := range s.stepAnn {
+		s.judgeAnnouncement(x.a, x.e)
+	}
 	s.run.Leases = append(s.run.Leases, s.leases)
 	// a nil reply implies an announcement of a manifest with the same hash in this step
 	for _, sub := range s.run.Subs {
